@@ -23,6 +23,7 @@ import (
 	"log/slog"
 	"math/big"
 	"os"
+	"regexp"
 	"sort"
 	"strings"
 	"sync"
@@ -64,7 +65,7 @@ const (
 
 type TxSpec struct {
 	From     int    `json:"from"`
-	Kind     string `json:"kind"` // xfer revert burn count selfd create fwd deleg big
+	Kind     string `json:"kind"` // xfer revert burn count selfd create fwd deleg big data wreq creq
 	Type     string `json:"type"` // legacy al dyn blob setcode
 	To       int    `json:"to,omitempty"`
 	NonceGap int    `json:"gap,omitempty"`
@@ -127,8 +128,11 @@ func hasPrague(f string) bool { return f != "cancun" }
 
 func genTx(r *simcore.Rand, fork string, blobs bool, baseFee uint64, gasLimit uint64) TxSpec {
 	t := TxSpec{From: r.Intn(nAccounts - 1)}
-	kinds := []string{"xfer", "revert", "burn", "count", "selfd", "create", "fwd", "deleg", "big", "data"}
-	t.Kind = kinds[r.Pick(6, 2, 2, 4, 1, 1, 2, 2, 1, 2)]
+	kinds := []string{"xfer", "revert", "burn", "count", "selfd", "create", "fwd", "deleg", "big", "data", "wreq", "creq"}
+	t.Kind = kinds[r.Pick(6, 2, 2, 4, 1, 1, 2, 2, 1, 2, 2, 1)]
+	if (t.Kind == "wreq" || t.Kind == "creq") && !hasPrague(fork) {
+		t.Kind = "count"
+	}
 	switch r.Pick(2, 1, 4, 2, 2) {
 	case 0:
 		t.Type = "legacy"
@@ -166,6 +170,14 @@ func genTx(r *simcore.Rand, fork string, blobs bool, baseFee uint64, gasLimit ui
 		t.Value = uint64(r.Intn(1000)) * gwei
 		if r.Bool(0.05) {
 			t.Value = 5_000_000_000 * gwei // more than a poor account has
+		}
+	case "wreq", "creq":
+		// EIP-7002 withdrawal request / EIP-7251 consolidation request to the predeploy: the
+		// block then carries consensus-layer requests (header requestsHash, envelope requests)
+		t.Gas = []uint64{500_000, 1_500_000}[r.Pick(3, 1)]
+		t.Value = gwei // covers the request fee
+		if r.Bool(0.1) {
+			t.Value = 0 // fee not paid: the predeploy reverts, no request
 		}
 	case "data":
 		// a transfer with calldata and a gas limit near the intrinsic cost: what is enough under
@@ -756,6 +768,10 @@ func (w *world) contract(kind string) common.Address {
 		return contracts[4].addr
 	case "fwd":
 		return contracts[5].addr
+	case "wreq":
+		return params.WithdrawalQueueAddress
+	case "creq":
+		return params.ConsolidationQueueAddress
 	}
 	return common.Address{}
 }
@@ -796,6 +812,14 @@ func (w *world) makeTx(t TxSpec, nonce uint64) (*types.Transaction, error) {
 	var data []byte
 	for i := 0; i < t.Data; i++ {
 		data = append(data, byte(i%250+1))
+	}
+	switch t.Kind {
+	case "wreq": // validator pubkey (48) + amount (8)
+		data = common.FromHex("b917cfdc0d25b72d55cf94db328e1629b7f4fde2c30cdacf873b664416f76a0c7f7cc50c9f72a3cb84be88144cde91250000000000000d80")
+		data[47] = byte(nonce)
+	case "creq": // source pubkey (48) + target pubkey (48)
+		data = common.FromHex("b917cfdc0d25b72d55cf94db328e1629b7f4fde2c30cdacf873b664416f76a0c7f7cc50c9f72a3cb84be88144cde9125b9812f7d0b1f2f969b52bbb2d316b0c2fa7c9dba85c428c5e6c27766bcc4b0c6e874702ff1eb1c7024b08524a9771601")
+		data[47] = byte(nonce)
 	}
 	var inner types.TxData
 	switch t.Type {
@@ -930,8 +954,11 @@ func derefU64(p *uint64) uint64 {
 	return *p
 }
 
+var hexRun = regexp.MustCompile(`(0x)?[0-9a-fA-F]{8,}`)
+
+// errClass turns an error into a stable key: hashes and numbers are dropped.
 func errClass(err error) string {
-	s := err.Error()
+	s := hexRun.ReplaceAllString(err.Error(), "H")
 	var sb strings.Builder
 	for _, c := range s {
 		if c >= '0' && c <= '9' {
@@ -968,6 +995,17 @@ func (w *world) judge(what string, env *engine.ExecutionPayloadEnvelope, beaconR
 		v.Key = "payload-not-a-block:" + errClass(err)
 		w.fail(v)
 		return nil
+	}
+	// what eth/catalyst newPayload checks: the header's requests hash is the hash of the
+	// envelope's requests (also implied by the block hash check above; kept explicit)
+	if rh := block.Header().RequestsHash; rh != nil {
+		if got := types.CalcRequestsHash(requests); got != *rh {
+			w.fail(simcore.Violf("payload-not-a-block", "%s: header requestsHash %x != hash of the envelope's executionRequests %x", what, *rh, got))
+			return nil
+		}
+	}
+	if len(requests) > 0 {
+		w.probe("payloads-with-requests")
 	}
 	if w.validator.HasBlock(block.Hash(), block.NumberU64()) {
 		w.probe("payload-identical-to-earlier-one")
@@ -1336,7 +1374,7 @@ func Checks() map[string]*simcore.Check {
 		},
 		Runs:       map[string]int{"quick": 2400, "thorough": 30000},
 		Gen:        Gen, Decode: Decode, Run: Run, Shrink: Shrink,
-		ProbeNames: []string{"blocks-imported", "blocks-imported-nonempty", "blocks-with-blob-txs", "blocks-with-setcode-txs", "blocks-with-withdrawals", "included-tx-failed-receipt", "block-full", "resolved-before-first-full-build", "resolved-full", "head-changed-during-build", "built-on-non-head-parent", "builder-tx-failed-account-skipped", "builder-skipped-low-nonce", "builder-tx-does-not-fit-gas", "builder-block-gas-exhausted", "builder-tx-does-not-fit-blobs", "builder-fill-interrupted-by-timeout", "payload-loop-ended-by-delivery", "payload-loop-ended-by-timeout", "pool-rejected", "pool-replaced", "event-add", "event-replace", "event-head", "event-tip", "event-extra"},
+		ProbeNames: []string{"blocks-imported", "blocks-imported-nonempty", "blocks-with-blob-txs", "blocks-with-setcode-txs", "blocks-with-withdrawals", "payloads-with-requests", "included-tx-failed-receipt", "block-full", "resolved-before-first-full-build", "resolved-full", "head-changed-during-build", "built-on-non-head-parent", "builder-tx-failed-account-skipped", "builder-skipped-low-nonce", "builder-tx-does-not-fit-gas", "builder-block-gas-exhausted", "builder-tx-does-not-fit-blobs", "builder-fill-interrupted-by-timeout", "payload-loop-ended-by-delivery", "payload-loop-ended-by-timeout", "pool-rejected", "pool-replaced", "event-add", "event-replace", "event-head", "event-tip", "event-extra"},
 	}}
 }
 
